@@ -355,6 +355,7 @@ func vfc35BuildBlock(parent string, rng *rand.Rand, wantSegs, level int, mint, m
 	headOpts := tsdb.DefaultHeadOptions()
 	headOpts.ChunkDirRoot = filepath.Join(parent, "vfhead")
 	headOpts.ChunkRange = 10000000000
+	headOpts.StripeSize = 64 // default 16384 stripes make NewHead slow under -race; irrelevant for the block written
 	h, err := tsdb.NewHead(nil, nil, nil, nil, headOpts, nil)
 	if err != nil {
 		return blk, errors.Wrap(err, "head")
@@ -985,6 +986,24 @@ func (cs *vfc35Case) runHistory(faultStep int, f vfc35Fault, secondCrash *vfc35F
 	return opsPerStep, newSnaps, injected, succeededAfterFault
 }
 
+// bucketHasPartialBlock: some block directory in the bucket has objects but no meta.json.
+func (cs *vfc35Case) bucketHasPartialBlock() bool {
+	objs := cs.inner.Objects()
+	for name := range objs {
+		i := strings.IndexByte(name, '/')
+		if i <= 0 {
+			continue
+		}
+		if _, err := ulid.Parse(name[:i]); err != nil {
+			continue
+		}
+		if _, ok := objs[name[:i]+"/"+block.MetaFilename]; !ok {
+			return true
+		}
+	}
+	return false
+}
+
 // expectSuccess: with a corrupted local block Sync never returns nil by design.
 func (cs *vfc35Case) expectSuccess() bool {
 	for _, b := range cs.blocks {
@@ -1097,9 +1116,13 @@ func TestVF_C35(t *testing.T) {
 		}
 		rng := r.Rand(c)
 		dir := filepath.Join(tmp, fmt.Sprintf("c%d", c))
+		t0 := time.Now()
 		cs := vfc35GenCase(t, r, c, rng, dir)
+		r.Count("wall_ms(informational):building-blocks", int(time.Since(t0).Milliseconds()))
+		t0 = time.Now()
 		r.Guard(c, "shipper-history", map[string]any{"config": cs.cfg, "blocks": cs.blocks, "steps": cs.steps}, func() { vfc35RunCase(cs, rng) })
 		cs.reap()
+		r.Count("wall_ms(informational):histories", int(time.Since(t0).Milliseconds()))
 		_ = os.RemoveAll(dir)
 	}
 }
@@ -1142,6 +1165,9 @@ func vfc35RunCase(cs *vfc35Case, rng *rand.Rand) {
 				}
 				_, _, inj, ok := cs.runHistory(si, f, second, snaps, r.Thorough() || rng.Intn(3) == 0)
 				r.Count("histories_with_fault", 1)
+				if r.Replaying() && os.Getenv("VERIF_TRACE") != "" {
+					cs.t.Logf("history (step %d, op %d, %s):\n  %s", si, k, f.mode(), strings.Join(cs.trace, "\n  "))
+				}
 				if inj == nil {
 					r.Count("fault_not_reached", 1)
 					continue
@@ -1153,11 +1179,24 @@ func vfc35RunCase(cs *vfc35Case, rng *rand.Rand) {
 				}
 				if !ok {
 					if cs.expectSuccess() {
-						r.Count("no_nil_sync_within_3_after_fault", 1)
-						r.Count("no_nil_sync_within_3_after_fault:"+f.mode()+":"+inj.Kind+":"+inj.Class, 1)
-						if cs.r.Counter("no_nil_sync_within_3_after_fault") <= 3 {
-							cs.r.Extra(fmt.Sprintf("stuck_example_%d", cs.r.Counter("no_nil_sync_within_3_after_fault")),
+						// The statement only speaks about Syncs that return nil, so this is counted, never a violation.
+						// One class is known on the unchanged tree (see report): with upload-compacted and without
+						// allow-out-of-order the overlap check lists the bucket and fails on the shipper's own partial
+						// upload (a block directory without meta.json). Any other class means the monitor could not
+						// establish the antecedent for that crash point: inconclusive.
+						class := "other"
+						if cs.cfg.UploadCompacted && !cs.cfg.AllowOOO && cs.bucketHasPartialBlock() {
+							class = "overlap-check-fails-on-partial-upload-in-bucket"
+						}
+						r.Count("no_nil_sync_within_3_after_fault:"+class, 1)
+						r.Count("no_nil_sync_within_3_after_fault:"+class+":"+f.mode()+":"+inj.Kind+":"+inj.Class, 1)
+						if n := r.Counter("no_nil_sync_within_3_after_fault:" + class); n <= 2 {
+							r.Extra(fmt.Sprintf("no_nil_sync_example:%s:%d", class, n),
 								map[string]any{"config": cs.cfg, "blocks": cs.blocks, "steps": cs.steps, "history": append([]string(nil), cs.trace...)})
+						}
+						if class == "other" && r.Counter("no_nil_sync_within_3_after_fault:other") <= 5 {
+							r.Inconclusive(fmt.Sprintf("case %d: after fault %s at %s %s no Sync returned nil within 3 attempts although the bucket was healthy again; the property (which speaks about successful syncs) could not be evaluated for this crash point; history: %s",
+								cs.c, f.mode(), inj.Kind, inj.Name, strings.Join(cs.trace, " | ")))
 						}
 					}
 					continue
